@@ -425,6 +425,7 @@ pub fn run_c10(ctx: &mut Ctx) -> (String, Value, Vec<String>) {
     bases.push(ArrSpec::SumOf(Box::new(ArrSpec::Periodic { t: 9 }), Box::new(ArrSpec::Sporadic { t: 3, j: 1 })));
     bases.push(ArrSpec::SumOf(Box::new(ArrSpec::Sporadic { t: 2, j: 0 }), Box::new(ArrSpec::Periodic { t: 7 })));
     bases.push(ArrSpec::Sum(vec![ArrSpec::Periodic { t: 8 }, ArrSpec::Curve { dmin: vec![0, 3] }]));
+    bases.push(ArrSpec::Slice(vec![ArrSpec::Periodic { t: 6 }, ArrSpec::Sporadic { t: 3, j: 2 }]));
     bases.push(ArrSpec::Sum(vec![ArrSpec::Sporadic { t: 11, j: 0 }, ArrSpec::Sporadic { t: 5, j: 2 }, ArrSpec::Periodic { t: 4 }]));
     bases.push(ArrSpec::Prefix { horizon: 8, steps: vec![(1, 1), (3, 2), (7, 3)] });
     bases.push(ArrSpec::Prefix { horizon: 5, steps: vec![(1, 2), (4, 3)] });
@@ -476,6 +477,7 @@ pub fn run_c10(ctx: &mut Ctx) -> (String, Value, Vec<String>) {
         for b in &parts {
             for (nm, spec) in [
                 ("Vec<ArrivalBound>", ArrSpec::Sum(vec![a.clone(), b.clone()])),
+                ("[ArrivalBound]", ArrSpec::Slice(vec![a.clone(), b.clone()])),
                 ("arrival::sum_of", ArrSpec::SumOf(Box::new(a.clone()), Box::new(b.clone()))),
             ] {
                 let (x, y, z) = (a.build(), b.build(), spec.build());
